@@ -1,4 +1,5 @@
 import Proofs.Tcp.Signal
+import Proofs.Tcp.NoErr
 /-!
 # C15 — CoAP over TCP: framing independent of segmentation, signalling rules enforced
 
@@ -469,6 +470,108 @@ theorem C15_empty_ignored_in_stream (ms : List Msg) :
       dispatched ((ms.filter (fun m => m.code ≠ 0)).flatMap dispatchIncoming) := by
   rw [dispatched_flatMap, dispatched_flatMap, List.filter_filter]
   simp
+
+-- =============================================================================================
+-- 10. whole sessions; no serialisation failure in the receive path
+-- =============================================================================================
+
+/-- `closed` after any chunk sequence = closed before, or a close among the outputs -/
+theorem feedAll_closed_iff : ∀ (cs : List Bytes) (c : Conn),
+    (feedAll c cs).1.closed = (c.closed || (feedAll c cs).2.any Out.isClose) := by
+  intro cs
+  induction cs with
+  | nil => intro c; simp [feedAll]
+  | cons y ys ih =>
+    intro c
+    simp only [feedAll]
+    by_cases hc : c.closed = true
+    · simp [hc]
+    · simp only [hc, Bool.false_eq_true, ↓reduceIte, ih, List.any_append]
+      have := (drain_facts' (c.app y)).1
+      simp only [Conn.app_closed] at this
+      rw [feed_eq]
+      have hcf : c.closed = false := by cases h : c.closed <;> simp_all
+      simp only [this, Bool.or_assoc, hcf]
+
+theorem sendMessage_no_close (m : Msg) : (sendMessage m).any Out.isClose = false := by
+  unfold sendMessage
+  split <;> rfl
+
+/-- outputs of a whole session up to the first close: the initial CSM, then those of the chunks -/
+theorem session_uptoClose (M : Nat) (cs : List Bytes) :
+    uptoClose (session M cs).2 = (connectionMade M).2 ++ uptoClose (feedAll (fresh M) cs).2 := by
+  have hcl := feedAll_closed_iff cs (fresh M)
+  simp only [(fresh_facts M).2.1, Bool.false_or] at hcl
+  have hw : (connectionMade M).2.any Out.isClose = false := sendMessage_no_close _
+  simp only [session]
+  change uptoClose ((connectionMade M).2 ++ (feedAll (fresh M) cs).2 ++
+    (if (feedAll (fresh M) cs).1.closed then connectionLost else [])) = _
+  rw [List.append_assoc, uptoClose_append, hw]
+  simp only [Bool.false_eq_true, ↓reduceIte, uptoClose_append]
+  cases hany : (feedAll (fresh M) cs).2.any Out.isClose with
+  | true => simp
+  | false =>
+    rw [hany] at hcl
+    simp [hcl, uptoClose_of_no_close hany, uptoClose]
+
+/-- **C15 (chunking independence, whole session).** What the driver and the harness run — the
+initial CSM, the chunks, `connection_lost` after a close — is, up to and including the first
+close, the same for every way of cutting the stream. -/
+theorem C15_chunking_independent_session (M : Nat) (cs : List Bytes) :
+    uptoClose (session M cs).2 = uptoClose (session M [cs.flatten]).2 := by
+  rw [session_uptoClose, session_uptoClose, C15_chunking_independent M cs,
+    C15_chunking_independent M [cs.flatten]]
+  simp
+
+/-- **C15 (critical option in a CSM, at the receive loop).** For a connection with well-formed
+bytes in the spool and a maximum message size below 2^64: a complete in-limit CSM frame with an
+odd-numbered option is consumed, and the first outputs are Abort ("Option not supported",
+Bad-CSM-Option = that number) and close.  No assumption on the option number is needed: inside a
+frame it is below 65805 times the frame length. -/
+theorem C15_critical_csm_option_frame_aborts (c : Conn) (to tkl len : Nat) (m : Msg)
+    (hwf : c.spool.wf) (hmax : c.maxSize < 2 ^ 64)
+    (hx : extractSize c.spool = some (to, tkl, len)) (hfit : to + tkl + len ≤ c.maxSize)
+    (hcomplete : to + tkl + len ≤ c.spool.length)
+    (hd : decodeMessage (c.spool.take (to + tkl + len)) = some m)
+    (hcode : m.code = codeCSM) (hcrit : ¬ noCritical m.opts) :
+    ∃ n w post c', step c = .next c' (.write w :: .close :: post) ∧ c'.closed = true ∧
+      n % 2 = 1 ∧ (∃ o ∈ m.opts, o.num = n) ∧
+      Rfc8323.Message w (abortMsg txtOptNotSupported (some n)) := by
+  have hnum : ∀ o ∈ m.opts, (minBE o.num).length < 13 := by
+    intro o ho
+    have h1 := decodeMessage_num_bound (Bytes.wf_take _ hwf) hd o ho
+    have h2 : (c.spool.take (to + tkl + len)).length ≤ c.maxSize := by
+      simp only [List.length_take]; omega
+    exact minBE_small (Nat.le_trans h1 (Nat.mul_le_mul_left _ h2)) hmax
+  obtain ⟨n, w, post, h1, h2, h3, h4, h5⟩ :=
+    C15_critical_csm_option_aborts (c.consume (to + tkl + len)) m hcode hcrit hnum
+  refine ⟨n, w, post, _, ?_, h4, h1, h2, h5⟩
+  have a : ¬ to + tkl + len > c.maxSize := by omega
+  have b : ¬ to + tkl + len > c.spool.length := by omega
+  have h224 : m.code ≥ 224 := by rw [hcode]; decide
+  unfold step
+  simp only [hx, a, b, ↓reduceIte, hd, h224, h3]
+
+/-- **C15 (the receive path never fails to serialise).** With well-formed input bytes and a
+maximum message size below 2^64, `_serialize` never raises for the messages the connection sends
+by itself (initial CSM, Pong, Abort with or without Bad-CSM-Option), over any chunk history:
+no exception escapes `data_received` from there. -/
+theorem C15_never_send_error (M : Nat) (hM : M < 2 ^ 64) (cs : List Bytes)
+    (hcs : ∀ x ∈ cs, Bytes.wf x) : Out.sendError ∉ (session M cs).2 := by
+  have hcsm : noErr (connectionMade M).2 := by
+    apply sendMessage_noErr
+    have hl : (minBE M).length ≤ 8 := minBE_length (k := 8) (by simpa using hM)
+    have a : (minBE M).length < 13 := by omega
+    have b : (minBE M).length + 1 + 1 < 13 := by omega
+    simp [serialize, initialCsm, encodeOpts, writeExt, a, frameBytes, encodeLength, payloadPart, b,
+      codeCSM]
+  have hfeed := feedAll_noErr cs (fresh M) (by simp [fresh, connectionMade, Bytes.wf])
+    (by simpa [fresh, connectionMade] using hM) hcs
+  simp only [session]
+  change noErr ((connectionMade M).2 ++ (feedAll (fresh M) cs).2 ++
+    (if (feedAll (fresh M) cs).1.closed then connectionLost else []))
+  refine noErr_append.mpr ⟨noErr_append.mpr ⟨hcsm, hfeed⟩, ?_⟩
+  split <;> simp [noErr, connectionLost]
 
 -- =============================================================================================
 -- non-vacuity and sanity examples
